@@ -43,6 +43,11 @@ pub enum Prov {
     /// built longer with ONES above, truncated to a fraction k of n, then the remaining bits
     /// k..n pushed back one at a time (push writes single bits into words a shrink left behind)
     TruncThenPush(u16),
+    /// canonical, then reserve(k) with k in the hundreds of thousands of bits (dynamic / auto):
+    /// an allocation of tens of kilobytes behind a short vector
+    HugeSpare(u32),
+    /// like `LongThenTrunc`, `extra` up to hundreds of thousands of bits
+    ShrunkFrom(u32),
 }
 
 impl Prov {
@@ -64,6 +69,8 @@ impl Prov {
             Prov::SubNat(_) => "prov:difference-with-native",
             Prov::OrLonger(_) => "prov:or-with-longer",
             Prov::TruncThenPush(_) => "prov:truncated-then-pushed",
+            Prov::HugeSpare(_) => "prov:huge-spare-capacity",
+            Prov::ShrunkFrom(_) => "prov:shrunk-from-much-longer",
         }
     }
 }
@@ -76,8 +83,22 @@ pub struct Operand {
 }
 
 impl Operand {
-    pub fn canon(ty: Tid, bits: Bits) -> Operand {
+    /// Canonical operand. Enumerators written for "every length up to k" hand in bit lists that
+    /// may exceed a tiny capacity (the zero-word types hold nothing): those are cut to the capacity
+    /// (high bits dropped), which only repeats cases.
+    pub fn canon(ty: Tid, mut bits: Bits) -> Operand {
+        if let Some(c) = fixed_cap(ty) {
+            if bits.len() > c {
+                bits.0.truncate(c);
+            }
+        }
         Operand { ty, bits, prov: Prov::Canon }
+    }
+    /// Same clipping for an operand with an explicit provenance.
+    pub fn fitted(ty: Tid, bits: Bits, prov: Prov) -> Operand {
+        let mut o = Operand::canon(ty, bits);
+        o.prov = prov;
+        o
     }
     pub fn len(&self) -> usize {
         self.bits.len()
@@ -93,8 +114,12 @@ impl Operand {
 pub fn short(b: &Bits) -> String {
     if b.len() <= 140 {
         format!("0b{}", b.msb_string())
-    } else {
+    } else if b.len() <= 8192 {
         format!("0x{} (len {})", b.hex(), b.len())
+    } else {
+        // megabit values: both ends (the replay file holds the whole case)
+        let h = b.hex();
+        format!("0x{}...[{} hex digits omitted]...{} (len {}, {} bits set)", &h[..48], h.len() - 96, &h[h.len() - 48..], b.len(), b.popcount())
     }
 }
 
@@ -178,6 +203,25 @@ pub fn build<T: Subject>(bits: &Bits, prov: &Prov) -> T {
         Prov::Spare(k) => {
             let mut v = build_canon::<T>(bits);
             v.reserve_x(*k as usize);
+            v
+        }
+        Prov::HugeSpare(k) => {
+            let mut v = build_canon::<T>(bits);
+            v.reserve_x(*k as usize);
+            v
+        }
+        Prov::ShrunkFrom(extra) => {
+            let mut m = n + (*extra as usize);
+            if let Some(c) = cap {
+                m = m.min(c);
+            }
+            let mut v = T::ones(m);
+            v.truncate(n);
+            for (i, &b) in bits.0.iter().enumerate() {
+                if !b {
+                    v.set(i, bit(false));
+                }
+            }
             v
         }
         Prov::LongThenTrunc(extra) => {
